@@ -47,7 +47,7 @@ pub enum Ev {
 
 #[derive(Clone, Debug)]
 pub enum Tee {
-    Started(usize),
+    Started(usize, String),
     Finished(usize, u8, Vec<u8>),
 }
 
@@ -96,6 +96,8 @@ pub struct Shared {
     pub states: HashMap<usize, (u8, bool, Option<usize>)>,
     /// steps whose task closure was hit by an injected I/O error
     pub task_io_err: Vec<usize>,
+    /// steps that succeeded with all files present but for which nothing was appended to the log
+    pub unrecorded: Vec<usize>,
 }
 
 impl Shared {
@@ -123,6 +125,7 @@ impl Shared {
             crash_fired: false,
             states: HashMap::new(),
             task_io_err: vec![],
+            unrecorded: vec![],
         }
     }
     pub fn reset_invocation(&mut self) {
@@ -143,11 +146,18 @@ impl Shared {
         self.crash_fired = false;
         self.states.clear();
         self.task_io_err.clear();
+        self.unrecorded.clear();
     }
     /// close the record group of the last successful delivery
     pub fn finalize_pending(&mut self) {
-        if let Some(p) = self.pending.take() {
+        if let Some(mut p) = self.pending.take() {
             if p.written {
+                self.model.recs.push(p.rec);
+            } else {
+                // n2 appended nothing although the step succeeded with every file present
+                self.unrecorded.push(p.sid);
+                p.rec.end_off = disk::file_len(&self.db_path).unwrap_or(0);
+                p.rec.uncertain = true;
                 self.model.recs.push(p.rec);
             }
         }
@@ -624,6 +634,8 @@ impl Host for SimHost {
                 let mem = sh.model.mem.clone();
                 if let Some(si) = mem.step_by_id(sid) {
                     let deps = sh.model.rec_for(&mem, si).map(|r| r.deps.clone()).unwrap_or_default();
+                    // adopting on top of a record that may or may not be in the log: same doubt
+                    let uncertain = uncertain || sh.model.rec_for(&mem, si).map(|r| r.uncertain).unwrap_or(false);
                     if let Some(sig) = sh.model.sig_now(&mem, si, &deps) {
                         let outs = mem.steps[si].outs.clone();
                         for o in &outs {
@@ -673,7 +685,7 @@ impl Host for SimHost {
             sh.viol.push(viol("C18", "start-unknown-step", format!("started {:?} which is not a step of the loaded manifest", cmd)));
         }
         sh.ev.push(Ev::Start(sid));
-        sh.tee.push(Tee::Started(sid));
+        sh.tee.push(Tee::Started(sid, cmd.to_string()));
     }
 
     fn on_task_finished(&mut self, _bid: usize, cmd: &str, term: &Termination, output: &[u8]) {
